@@ -18,7 +18,8 @@ func init() { register(namesStream{}) }
 func (namesStream) Name() string          { return "names" }
 func (namesStream) TrivialTags() []string { return nil }
 
-const namesRoot = "/tmp/cdi-verif-names"
+// per-process scratch root: concurrent runs of the harness must not share a tree
+var namesRoot = scratchRoot("/tmp/cdi-verif-names")
 
 var transientIDs = []string{"1", "abc", "a/b", "../../etc/passwd", "..", ".", "", ".json", "x.yaml", "a.b.c", "/", "//x//", "..json",
 	"container-0123456789abcdef", "with space", "ü", "a/../b", "x.tmp", "y.yml", "-", "_"}
